@@ -294,6 +294,26 @@ def run(F, chk):
         chk.violation("R14.3", "C14/R14.3:CloneChildren:lookup", where(cc), "CloneChildren must look the children up in the source model")
     chk.floor(R3, 7)
 
+    # ---------------------------------------------------------------- R14.5
+    import c01
+    R5 = chk.rule("R14.5", "a cloned block is registered in the destination header under its own type: CloneChildren/CloneShape add "
+                           "clones through NiHeader::AddBlock, which takes the type name from GetBlockName(), and every registered "
+                           "block class returns its own BlockName from it")
+    addb = F.fn1("nifly::NiHeader::AddBlock")
+    uses_name = any(n["k"] == "Call" and n.get("short") == "GetBlockName" for n in walk(addb.get("body") or {}))
+    chk.instance(R5, ok=uses_name, sample={"AddBlock_registers_by": "GetBlockName()" if uses_name else "?"})
+    if not uses_name:
+        chk.violation("R14.5", "C14/R14.5:AddBlock", where(addb), "NiHeader::AddBlock no longer takes the type name from the block's GetBlockName()")
+    for cls, ok, why, site in c01.registered_type_names(F):
+        if cls is None:
+            continue
+        chk.instance(R5, ok=ok, sample={"class": cls})
+        if not ok:
+            chk.violation("R14.5", "C14/R14.5:%s" % cls, site,
+                          "a clone of %s is registered in the destination under another type: %s %s — the destination saves and "
+                          "reloads the clone as a block of that other type" % (cls, cls, why))
+    chk.floor(R5, 290)
+
     chk.assumptions += ["taint is tracked through locals, range-for variables and lambda captures; distinct objects are assumed not to "
                         "alias (Appendix A); a same-model clone (srcNif == this) necessarily adds blocks to that model",
                         "bone-list content and equality of cloned block content (= C11 clone wiring) are not decided here"]
